@@ -96,8 +96,7 @@ cmd('AlbumArtEmbedded', 'AlbumArtEmbedded', 'readpicture', [strarg('self.uri@'),
 # BUILDER TABLE (C15): every constructor / builder method of the predefined commands. Written from the documentation of the
 # builders and the MPD protocol reference: what request the value built this way stands for (`cmd_spec`), whether it can be written
 # (`cmd_ok`), and - for builders that are chained - which parameters of the receiver are kept. Private parameters are named through
-# closed accessor spec fns (ACC below). Not covered (generic `Into<..>` parameters): Queue::song, QueueRange::song, Play::song,
-# Add::at, AddToPlaylist::at - bounded stand-in cmddiff only.
+# closed accessor spec fns (ACC below). 
 B = []
 def bld(path, ens, req=(), extra='', mutself=False, props='C15'):
     B.append(dict(path=path, ens=list(ens), req=list(req), extra=extra, mutself=mutself, props=props))
@@ -164,6 +163,14 @@ for s_, w in (('Update', 'update'), ('Rescan', 'rescan')):
     bld('%s::uri' % s_, ['r.cmd_spec() == %s' % W(w, strarg('uri@')), 'r.cmd_ok() == %s' % okstr('uri@')])
 bld('SendChannelMessage::new', ['r.cmd_spec() == %s' % W('sendmessage', strarg('channel@'), strarg('message@')), 'r.cmd_ok() == (%s && %s)' % (okstr('channel@'), okstr('message@'))])
 
+# generic `Into<..>` parameters: the conversion is the caller's (a trait method of an unknown type), so the contract can only say that
+# the request is the documented one for SOME position / id
+bld('Queue::song', ['(exists|p: usize| r.cmd_spec() == #[trigger] (%s)) || (exists|i: u64| r.cmd_spec() == #[trigger] (%s))' % (W('playlistinfo', num('p')), W('playlistid', num('i')))], extra='  tailbind r <<<\n        proof { match r.0 { SongOrSongRange::Single(Song::Position(p)) => { assert(r.cmd_spec() == ' + W('playlistinfo', num('p.0')) + '); } SongOrSongRange::Single(Song::Id(i)) => { assert(r.cmd_spec() == ' + W('playlistid', num('i.0')) + '); } _ => {} } }\n  >>>')
+bld('QueueRange::song', ['(exists|p: usize| r.cmd_spec() == #[trigger] (%s)) || (exists|i: u64| r.cmd_spec() == #[trigger] (%s))' % (W('playlistinfo', num('p')), W('playlistid', num('i')))], extra='  tailbind r <<<\n        proof { match r.0 { SongOrSongRange::Single(Song::Position(p)) => { assert(r.cmd_spec() == ' + W('playlistinfo', num('p.0')) + '); } SongOrSongRange::Single(Song::Id(i)) => { assert(r.cmd_spec() == ' + W('playlistid', num('i.0')) + '); } _ => {} } }\n  >>>')
+bld('Play::song', ['(exists|p: usize| r.cmd_spec() == #[trigger] (%s)) || (exists|i: u64| r.cmd_spec() == #[trigger] (%s))' % (W('play', num('p')), W('playid', num('i')))], extra='  tailbind r <<<\n        proof { match r.0 { Some(Song::Position(p)) => { assert(r.cmd_spec() == ' + W('play', num('p.0')) + '); } Some(Song::Id(i)) => { assert(r.cmd_spec() == ' + W('playid', num('i.0')) + '); } _ => {} } }\n  >>>')
+bld('Add::at', ['exists|p: usize| r.cmd_spec() == #[trigger] (%s)' % W('addid', strarg('self.uri_view()'), num('p')), 'r.cmd_ok() == self.cmd_ok()', 'r.uri_view() == self.uri_view()'], mutself=True, extra='  tailbind r <<<\n        proof { match r.position { Some(PositionOrRelative::Absolute(p)) => { assert(r.cmd_spec() == ' + W('addid', strarg('self.uri_view()'), num('p.0')) + '); } _ => {} } }\n  >>>')
+bld('AddToPlaylist::at', ['exists|p: usize| r.cmd_spec() == #[trigger] (%s)' % W('playlistadd', strarg('self.pl_view()'), strarg('self.url_view()'), num('p')), 'r.cmd_ok() == self.cmd_ok()'], mutself=True, extra='  tailbind r <<<\n        proof { match r.position { Some(p) => { assert(r.cmd_spec() == ' + W('playlistadd', strarg('self.pl_view()'), strarg('self.url_view()'), num('p.0')) + '); } _ => {} } }\n  >>>')
+
 # closed accessor spec fns (the parameters a chained builder keeps; public types only)
 ACC = """
 impl QueueRange { pub closed spec fn rng(&self) -> SongRange { match self.0 { SongOrSongRange::Range(x) => x, _ => arbitrary() } } }
@@ -184,6 +191,10 @@ impl<const N: usize> List<N> {
     pub closed spec fn tag_n(&self) -> Seq<char> { self.tag.name() }
     pub closed spec fn filter_b(&self) -> Option<Seq<u8>> { match self.filter { Some(f) => Some(f.arg_bytes()), None => None } }
     pub closed spec fn groups(&self) -> Seq<Tag> { self.group_by@ }
+}
+impl<'a> AddToPlaylist<'a> {
+    pub closed spec fn pl_view(&self) -> Seq<char> { self.playlist@ }
+    pub closed spec fn url_view(&self) -> Seq<char> { self.song_url@ }
 }
 impl Count { pub closed spec fn filter_b(&self) -> Seq<u8> { self.filter.arg_bytes() } }
 impl CountGrouped { pub closed spec fn tag_n(&self) -> Seq<char> { self.group_by.name() } }
